@@ -25,10 +25,25 @@ class LatestScenario(Scenario):
             self.src2 = Stream(asynchronous=True, loop=self.ioloop)
             node = node.union(self.src2)
         self.node = node.latest()
-        self.sink = self.node.sink(self.make_sink_fn(p["kind"], "S"))
+        inner = self.make_sink_fn(p["kind"], "S")
+        if p.get("idle") == 2:
+            # the consumer itself pushes one more element into the source while it is being handed its first one
+            scen = self
+            fed = []
+
+            def feeding(x):
+                r = inner(x)
+                if not fed:
+                    fed.append(1)
+                    scen.log.append(("emit", "p", scen.loop.time(), "fed-back"))
+                    scen.src.emit("fed-back")
+                return r
+            self.sink = self.node.sink(feeding)
+        else:
+            self.sink = self.node.sink(inner)
         n = p["n"]
         items = p.get("items")
-        if p.get("idle"):
+        if p.get("idle") == 1:
             # a long quiet period before / between arrivals
             self.horizon = 12.0
             self.clock_marks((11.0,))
@@ -145,6 +160,9 @@ def plan(ctx):
     jobs.append((("native", "none", 1, 6), 1))
     jobs.append((("future", "none", 1, 2, None, 1), 2))                    # arrivals around a long idle period
     jobs.append((("sync", "none", 1, 3, (1, 1.0, None), 1), 2))
+    for kind in ("sync", "future"):
+        jobs.append(((kind, "none", 1, 1, None, 2), 2))                    # feedback from the consumer, nothing after it
+        jobs.append(((kind, "none", 1, 2, None, 2), 2))
     return jobs
 
 
